@@ -151,6 +151,33 @@ func (p c17) Gen(c *run.Ctx, idx int) (json.RawMessage, error) {
 			}
 			subs = append(subs, subSpec{ID: fmt.Sprintf("s%d", si), Op: *op, Marker: marker, Script: script})
 		}
+		// sometimes the subscriptions of one connection share one operation text and differ only in the
+		// marker *variable* (same plan-cache key on a caching gateway)
+		if len(subs) >= 2 && r.Intn(3) == 0 {
+			base := subs[0]
+			lit := fmt.Sprintf("marker: %q", base.Marker)
+			if strings.Contains(base.Op.Query, lit) && !strings.Contains(base.Op.Query, "$mk") {
+				q := strings.Replace(base.Op.Query, lit, "marker: $mk", 1)
+				if i := strings.Index(q, "{"); i >= 0 {
+					head := strings.TrimSpace(q[:i])
+					if strings.Contains(head, "(") {
+						q = strings.Replace(q, "(", "($mk: String, ", 1)
+					} else {
+						q = head + "($mk: String) " + q[i:]
+					}
+				}
+				if _, err := gqlparser.LoadQuery(cu.mono, q); err == nil {
+					for si := range subs {
+						vars := map[string]any{}
+						for k, v := range base.Op.Variables {
+							vars[k] = v
+						}
+						vars["mk"] = subs[si].Marker
+						subs[si].Op = gen.Op{Query: q, Variables: vars, OperationName: base.Op.OperationName}
+					}
+				}
+			}
+		}
 		if len(subs) > 0 {
 			cs.Conns = append(cs.Conns, subs)
 		}
